@@ -15,7 +15,8 @@ type condAssume struct {
 	info *types.Info
 	bval map[types.Object]bool         // boolean variable -> assumed value
 	eq   map[types.Object]types.Object // variable -> the constant object it is assumed equal to
-	ival map[types.Object]int64        // integer variable -> assumed value
+	ival map[types.Object]int64        // integer variable (or field) -> assumed value
+	lenv map[types.Object]int64        // field -> assumed length of the slice it holds
 	nilv map[types.Object]bool         // variable -> assumed to be nil (true) / not nil (false)
 	call func(*ast.CallExpr) int       // assumed results of boolean calls (1, 0, or -1 for unknown)
 }
@@ -131,11 +132,31 @@ func (a *condAssume) intOf(e ast.Expr) (int64, bool) {
 			return v, true
 		}
 	}
+	// a field with an assumed value (of whatever struct value it is read from)
+	if sel, ok := e.(*ast.SelectorExpr); ok {
+		if fv, ok := a.info.Uses[sel.Sel].(*types.Var); ok && fv.IsField() {
+			if v, ok := a.ival[fv]; ok {
+				return v, true
+			}
+		}
+	}
+	// len(x.F) with an assumed length of field F, keyed by the field
+	if call, ok := e.(*ast.CallExpr); ok && len(call.Args) == 1 {
+		if id, ok := unparen(call.Fun).(*ast.Ident); ok && id.Name == "len" {
+			if sel, ok := unparen(call.Args[0]).(*ast.SelectorExpr); ok {
+				if fv, ok := a.info.Uses[sel.Sel].(*types.Var); ok && fv.IsField() {
+					if v, ok := a.lenv[fv]; ok {
+						return v, true
+					}
+				}
+			}
+		}
+	}
 	return 0, false
 }
 
 func (a *condAssume) cmpInt(v *ast.BinaryExpr) (int, bool) {
-	if len(a.ival) == 0 {
+	if len(a.ival) == 0 && len(a.lenv) == 0 {
 		return 0, false
 	}
 	x, ok1 := a.intOf(v.X)
